@@ -637,20 +637,23 @@ theorem runPassDir_PND (p : PassT) (c : Ctx) (fuel : Nat) (ar : Bool) (h : WF c.
               (reverse_PND hP _) e
           · exact runPass_PND p c fuel h hF hP e
 
-theorem runPhase_PND (passes : Array PassT) (bPass : Nat) (c : Ctx) (lo hi : Nat) (dobidi : Bool) (fuel : Nat) (h : WF c.seg) (hF : Forest c.seg) (hP : PND c.seg) {c' : Ctx}
-    (e : runPhase passes bPass c lo hi dobidi fuel = .ok (some c')) : PND c'.seg := by
-  refine (runPhase_ind (fun x => WF x.seg ∧ Forest x.seg ∧ PND x.seg) passes bPass lo hi dobidi fuel
+theorem pnd_setGlyph {s : Seg} (h : PND s) (gadv : Array Int) (i g : Nat) : PND (s.upd i fun sl => sl.setGlyph gadv g) :=
+  h.updKeep _ _ (fun _ => ⟨rfl, rfl, rfl⟩)
+
+theorem bidiStep_PND {c : Ctx} (hP : PND c.seg) (aMirror : Nat) : PND (bidiStep c aMirror).seg :=
+  bidiStep_ind PND aMirror (fun s mark hs => reverse_PND hs mark) (fun gadv s i g hs => pnd_setGlyph hs gadv i g) c hP
+
+theorem startMirror_PND (font : Font) {c : Ctx} (hP : PND c.seg) : PND (startMirror font c).seg := by
+  unfold startMirror
+  split
+  · exact doMirror_ind PND c font.aMirror (fun s i g hs => pnd_setGlyph hs _ i g) hP
+  · exact hP
+
+theorem runPhase_PND (passes : Array PassT) (bPass : Nat) (c : Ctx) (lo hi : Nat) (dobidi : Bool) (fuel : Nat) (h : WF c.seg) (hF : Forest c.seg) (hP : PND c.seg) {aMirror : Nat} {c' : Ctx}
+    (e : runPhase passes bPass c lo hi dobidi fuel aMirror = .ok (some c')) : PND c'.seg :=
+  (runPhase_ind (fun x => WF x.seg ∧ Forest x.seg ∧ PND x.seg) passes bPass lo hi dobidi fuel aMirror
     (fun ar k _ _ c1 c2 h1 e1 => ⟨runPassDir_spec _ c1 fuel ar h1.1 e1, runPassDir_forest _ c1 fuel ar h1.1 h1.2.1 e1, runPassDir_PND _ c1 fuel ar h1.1 h1.2.1 h1.2.2 e1⟩)
-    (fun x l hx => hx) (fun x hx => ?_) c ⟨h, hF, hP⟩ e).2.2
-  refine ⟨bidiStep_wf hx.1, ?_, ?_⟩
-  · unfold bidiStep
-    split
-    · exact forest_congr (reverse_treeSame _ _) hx.2.1
-    · exact hx.2.1
-  · unfold bidiStep
-    split
-    · exact reverse_PND hx.2.2 _
-    · exact hx.2.2
+    (fun x l hx => hx) (fun x hx => ⟨bidiStep_wf hx.1 aMirror, bidiStep_forest hx.2.1 aMirror, bidiStep_PND hx.2.2 aMirror⟩) c ⟨h, hF, hP⟩ e).2.2
 
 theorem pnd_of_allIso {s : Seg} (h : AllIso s) : PND s := fun j p _ hp => by rw [(h j).1] at hp; cases hp
 
@@ -704,9 +707,9 @@ theorem shape_PND (font : Font) (text : List Nat) (fuel : Nat) (dir : Nat) {c : 
     · cases e
     · cases e
     · rename_i c1 h1
-      have hw0 := initSeg_wf font text dir
-      have hf0 := initSeg_forest font text dir
-      have hp0 := pnd_of_allIso (initSeg_allIso font text dir)
+      have hw0 := startMirror_wf font (c := initCtx font text dir) (initSeg_wf font text dir)
+      have hf0 := startMirror_forest font (c := initCtx font text dir) (initSeg_forest font text dir)
+      have hp0 := startMirror_PND font (c := initCtx font text dir) (pnd_of_allIso (initSeg_allIso font text dir))
       have w1 := runPhase_spec _ _ _ _ _ _ _ hw0 h1
       have f1 := runPhase_forest _ _ _ _ _ _ _ hw0 hf0 h1
       have p1 := runPhase_PND _ _ _ _ _ _ _ hw0 hf0 hp0 h1
